@@ -40,6 +40,7 @@ type c16 struct {
 	w    *bufio.Writer
 	rng  *rand.Rand
 	db   DB
+	db2  DB // cross-backend stream only: the SAME calls are also issued on the KV store
 	ctx  context.Context
 	n    int    // case number
 	keyN uint64 // session key counter (unique per registration)
@@ -49,7 +50,7 @@ type c16 struct {
 	idBase uint64
 	mu     sync.Mutex
 	wmu    sync.Mutex
-	newDB  func() DB // fresh database (bulk-delete cases start on an empty one)
+	newDB  func() (DB, DB) // fresh database(s) (bulk-delete cases start on an empty one)
 }
 
 func (c *c16) pf(format string, a ...interface{}) {
@@ -181,6 +182,24 @@ func (c *c16) dump(p *MPPayment) string {
 	return sb.String()
 }
 
+// c16NewKV builds a bbolt-backed KVStore; only set in the build that also has
+// the SQL store (zz_c16_x_verif_test.go, cross-backend stream).
+var c16NewKV func(t *testing.T) DB
+
+// both runs one call on the store under test and, in the cross-backend
+// stream, the same call on the KV store: "<kv answer> ## <sql answer>".
+func (c *c16) both(f func(db DB) string) string {
+	run := func(db DB) (res string) {
+		defer c.guard(&res)
+		return f(db)
+	}
+	if c.db2 == nil {
+		return run(c.db)
+	}
+	kv := run(c.db2)
+	return kv + " ## " + run(c.db)
+}
+
 func (c *c16) guard(res *string) {
 	if r := recover(); r != nil {
 		*res = "panic"
@@ -188,17 +207,15 @@ func (c *c16) guard(res *string) {
 }
 
 func (c *c16) opInit(h int, value uint64) string {
-	res := ""
-	func() {
-		defer c.guard(&res)
+	res := c.both(func(db DB) string {
 		info := &PaymentCreationInfo{
 			PaymentIdentifier: c.hashes[h],
 			Value:             lnwire.MilliSatoshi(value),
 			CreationTime:      time.Unix(1700000000, 0),
 			PaymentRequest:    []byte("req"),
 		}
-		res = c16ErrName(c.db.InitPayment(c.ctx, c.hashes[h], info))
-	}()
+		return c16ErrName(db.InitPayment(c.ctx, c.hashes[h], info))
+	})
 	return fmt.Sprintf("init h=%d value=%d => %s", h, value, res)
 }
 
@@ -253,106 +270,95 @@ func (c *c16) mkAttempt(h int, id uint64, amt uint64, kind string, addr byte,
 func (c *c16) opReg(h int, id uint64, amt uint64, kind string, addr byte,
 	total uint64, fee uint64) string {
 
-	res := ""
-	func() {
-		defer c.guard(&res)
-		a := c.mkAttempt(h, id, amt, kind, addr, total, fee)
-		p, err := c.db.RegisterAttempt(c.ctx, c.hashes[h], a)
-		res = c16ErrName(err)
+	a := c.mkAttempt(h, id, amt, kind, addr, total, fee)
+	res := c.both(func(db DB) string {
+		a2 := *a
+		p, err := db.RegisterAttempt(c.ctx, c.hashes[h], &a2)
+		res := c16ErrName(err)
 		if err == nil {
 			res += " " + c.dump(p)
 		}
-	}()
+		return res
+	})
 	return fmt.Sprintf("reg h=%d id=%d amt=%d kind=%s addr=%d total=%d fee=%d => %s",
 		h, id, amt, kind, addr, total, fee, res)
 }
 
 func (c *c16) opSettle(h int, id uint64) string {
-	res := ""
-	func() {
-		defer c.guard(&res)
-		p, err := c.db.SettleAttempt(c.ctx, c.hashes[h], c.idBase+id,
+	res := c.both(func(db DB) string {
+		p, err := db.SettleAttempt(c.ctx, c.hashes[h], c.idBase+id,
 			&HTLCSettleInfo{
 				Preimage:   lntypes.Preimage{byte(h + 1)},
 				SettleTime: time.Unix(1700000002, 0),
 			})
-		res = c16ErrName(err)
+		res := c16ErrName(err)
 		if err == nil {
 			res += " " + c.dump(p)
 		}
-	}()
+		return res
+	})
 	return fmt.Sprintf("settle h=%d id=%d => %s", h, id, res)
 }
 
 func (c *c16) opFailAtt(h int, id uint64) string {
-	res := ""
-	func() {
-		defer c.guard(&res)
-		p, err := c.db.FailAttempt(c.ctx, c.hashes[h], c.idBase+id,
+	res := c.both(func(db DB) string {
+		p, err := db.FailAttempt(c.ctx, c.hashes[h], c.idBase+id,
 			&HTLCFailInfo{
 				Reason:   HTLCFailUnreadable,
 				FailTime: time.Unix(1700000003, 0),
 			})
-		res = c16ErrName(err)
+		res := c16ErrName(err)
 		if err == nil {
 			res += " " + c.dump(p)
 		}
-	}()
+		return res
+	})
 	return fmt.Sprintf("failatt h=%d id=%d => %s", h, id, res)
 }
 
 func (c *c16) opFail(h int, reason int) string {
-	res := ""
-	func() {
-		defer c.guard(&res)
-		p, err := c.db.Fail(c.ctx, c.hashes[h], FailureReason(reason))
-		res = c16ErrName(err)
+	res := c.both(func(db DB) string {
+		p, err := db.Fail(c.ctx, c.hashes[h], FailureReason(reason))
+		res := c16ErrName(err)
 		if err == nil {
 			res += " " + c.dump(p)
 		}
-	}()
+		return res
+	})
 	return fmt.Sprintf("fail h=%d reason=%d => %s", h, reason, res)
 }
 
 func (c *c16) opDel(h int) string {
-	res := ""
-	func() {
-		defer c.guard(&res)
-		res = c16ErrName(c.db.DeletePayment(c.ctx, c.hashes[h], false))
-	}()
+	res := c.both(func(db DB) string {
+		return c16ErrName(db.DeletePayment(c.ctx, c.hashes[h], false))
+	})
 	return fmt.Sprintf("del h=%d => %s", h, res)
 }
 
 func (c *c16) opDelFailed(h int) string {
-	res := ""
-	func() {
-		defer c.guard(&res)
-		res = c16ErrName(c.db.DeleteFailedAttempts(c.ctx, c.hashes[h]))
-	}()
+	res := c.both(func(db DB) string {
+		return c16ErrName(db.DeleteFailedAttempts(c.ctx, c.hashes[h]))
+	})
 	return fmt.Sprintf("delfailed h=%d => %s", h, res)
 }
 
 func (c *c16) opFetch(h int) string {
-	res := ""
-	func() {
-		defer c.guard(&res)
-		p, err := c.db.FetchPayment(c.ctx, c.hashes[h])
-		res = c16ErrName(err)
+	res := c.both(func(db DB) string {
+		p, err := db.FetchPayment(c.ctx, c.hashes[h])
+		res := c16ErrName(err)
 		if err == nil {
 			res += " " + c.dump(p)
 		}
-	}()
+		return res
+	})
 	return fmt.Sprintf("fetch h=%d => %s", h, res)
 }
 
 func (c *c16) opInflight() string {
-	res := ""
-	func() {
-		defer c.guard(&res)
-		ps, err := c.db.FetchInFlightPayments(c.ctx)
+	res := c.both(func(db DB) string {
+		ps, err := db.FetchInFlightPayments(c.ctx)
 		if err != nil {
-			res = c16ErrName(err)
-			return
+			return c16ErrName(err)
 		}
 		var hs []string
 		for _, p := range ps {
@@ -363,26 +369,24 @@ func (c *c16) opInflight() string {
 			}
 		}
 		sort.Strings(hs)
-		res = "ok set=" + strings.Join(hs, ",")
 		if len(hs) == 0 {
-			res = "ok set=-"
+			return "ok set=-"
 		}
-	}()
+		return "ok set=" + strings.Join(hs, ",")
+	})
 	return "inflight => " + res
 }
 
 // opDelAll: bulk DeletePayments. Only issued in cases that run on their own
 // database, so the returned count refers to this case's payments.
 func (c *c16) opDelAll(failedOnly, failedHtlcsOnly bool) string {
-	res := ""
-	func() {
-		defer c.guard(&res)
-		n, err := c.db.DeletePayments(c.ctx, failedOnly, failedHtlcsOnly)
-		res = c16ErrName(err)
+	res := c.both(func(db DB) string {
+		n, err := db.DeletePayments(c.ctx, failedOnly, failedHtlcsOnly)
 		if err == nil {
-			res = fmt.Sprintf("ok n=%d", n)
+			return fmt.Sprintf("ok n=%d", n)
 		}
-	}()
+		return c16ErrName(err)
+	})
 	b := func(x bool) int {
 		if x {
 			return 1
@@ -395,16 +399,13 @@ func (c *c16) opDelAll(failedOnly, failedHtlcsOnly bool) string {
 // opList: QueryPayments over everything, restricted to this case's hashes,
 // canonical order by hash index: "h:status".
 func (c *c16) opList(incl bool) string {
-	res := ""
-	func() {
-		defer c.guard(&res)
-		resp, err := c.db.QueryPayments(c.ctx, Query{
+	res := c.both(func(db DB) string {
+		resp, err := db.QueryPayments(c.ctx, Query{
 			MaxPayments:       1 << 20,
 			IncludeIncomplete: incl,
 		})
 		if err != nil {
-			res = c16ErrName(err)
-			return
+			return c16ErrName(err)
 		}
 		var hs []string
 		for _, p := range resp.Payments {
@@ -415,16 +416,98 @@ func (c *c16) opList(incl bool) string {
 			}
 		}
 		sort.Strings(hs)
-		res = "ok set=" + strings.Join(hs, ",")
 		if len(hs) == 0 {
-			res = "ok set=-"
+			return "ok set=-"
 		}
-	}()
+		return "ok set=" + strings.Join(hs, ",")
+	})
 	incN := 0
 	if incl {
 		incN = 1
 	}
 	return fmt.Sprintf("list incl=%d => %s", incN, res)
+}
+
+// opPage: paginated QueryPayments. The cursor is the sequence number of the
+// payment with hash index `cur` (-1: IndexOffset 0), read from the store by a
+// FetchPayment in the same call. Only issued in cases that run on their own
+// database. Answer: the returned payments IN RETURNED ORDER as "h:status"
+// ("x" for a payment that is not of this case), whether First/LastIndexOffset
+// are the sequence numbers of the first / last returned payment and strictly
+// increase along the page, and TotalCount.
+func (c *c16) opPage(incl, rev bool, cur int, max uint64) string {
+	res := c.both(func(db DB) string {
+		var off uint64
+		if cur >= 0 {
+			p, err := db.FetchPayment(c.ctx, c.hashes[cur])
+			if err != nil {
+				return "nocursor"
+			}
+			off = p.SequenceNum
+		}
+		resp, err := db.QueryPayments(c.ctx, Query{
+			IndexOffset:       off,
+			MaxPayments:       max,
+			Reversed:          rev,
+			IncludeIncomplete: incl,
+			CountTotal:        true,
+		})
+		if err != nil {
+			return c16ErrName(err)
+		}
+		var hs []string
+		offOK := 1
+		var last uint64
+		for k, p := range resp.Payments {
+			name := "x"
+			for i := range c.hashes {
+				if p.Info.PaymentIdentifier == c.hashes[i] {
+					name = strconv.Itoa(i)
+				}
+			}
+			hs = append(hs, fmt.Sprintf("%s:%d", name, int(p.Status)))
+			if k > 0 && p.SequenceNum <= last {
+				offOK = 0
+			}
+			last = p.SequenceNum
+			if rev && off != 0 && p.SequenceNum >= off {
+				offOK = 0
+			}
+			if !rev && p.SequenceNum <= off {
+				offOK = 0
+			}
+		}
+		if n := len(resp.Payments); n > 0 {
+			if resp.FirstIndexOffset != resp.Payments[0].SequenceNum ||
+				resp.LastIndexOffset != resp.Payments[n-1].SequenceNum {
+
+				offOK = 0
+			}
+		} else if resp.FirstIndexOffset != 0 || resp.LastIndexOffset != 0 {
+			offOK = 0
+		}
+		set := "-"
+		if len(hs) > 0 {
+			set = strings.Join(hs, ",")
+		}
+		return fmt.Sprintf("ok set=%s off=%d total=%d", set, offOK, resp.TotalCount)
+	})
+	b := func(x bool) int {
+		if x {
+			return 1
+		}
+		return 0
+	}
+	return fmt.Sprintf("page incl=%d rev=%d cur=%d max=%d => %s", b(incl), b(rev), cur, max, res)
+}
+
+// doPage issues one paginated query with a random cursor / direction / size.
+func (c *c16) doPage(cs *c16Case) {
+	cur := -1
+	if c.rng.Intn(100) < 65 {
+		cur = c.rng.Intn(c16Hashes)
+	}
+	c.pf("%s", c.opPage(c.rng.Intn(4) != 0, c.rng.Intn(2) == 0, cur, uint64(1+c.rng.Intn(3))))
 }
 
 func (c *c16) startCase(kind string) {
@@ -686,7 +769,7 @@ func (c *c16) genOp(cs *c16Case) {
 	}
 	ws = append(ws, wop{"list", 3})
 	if cs.bulk {
-		ws = append(ws, wop{"delall", 10})
+		ws = append(ws, wop{"delall", 10}, wop{"page", 9})
 	}
 	tot := 0
 	for _, w := range ws {
@@ -810,6 +893,9 @@ func (c *c16) genOp(cs *c16Case) {
 
 	case "delall":
 		c.doDelAll(cs, c.rng.Intn(100) < 60, c.rng.Intn(100) < 40)
+
+	case "page":
+		c.doPage(cs)
 	}
 }
 
@@ -881,7 +967,7 @@ func (c *c16) genCase(wild bool) {
 	if bulk && c.newDB != nil {
 		// bulk DeletePayments acts on (and counts) every payment in the
 		// database: such a case starts on an empty one.
-		c.db = c.newDB()
+		c.db, c.db2 = c.newDB()
 	} else {
 		bulk = false
 	}
@@ -911,6 +997,11 @@ func (c *c16) genCase(wild bool) {
 	}
 	c.pf("%s", c.opInflight())
 	c.pf("%s", c.opList(true))
+	if bulk {
+		for i := 0; i < 3; i++ {
+			c.doPage(cs)
+		}
+	}
 	c.endCase()
 }
 
@@ -1051,7 +1142,11 @@ func (c *c16) genConcCase() {
 	c.endCase()
 }
 
-func TestVerifC16(t *testing.T) {
+func TestVerifC16(t *testing.T) { c16Run(t, false) }
+
+// c16Run: x = cross-backend stream (every call is issued on the KV store and
+// on the SQL store, sequential cases only).
+func c16Run(t *testing.T, x bool) {
 	out := os.Getenv("VERIF_OUT")
 	if out == "" {
 		t.Skip("VERIF_OUT not set")
@@ -1073,6 +1168,9 @@ func TestVerifC16(t *testing.T) {
 	if tier == "thorough" {
 		nCases = 8000
 	}
+	if x {
+		nCases = nCases * 5 / 8
+	}
 	if v := os.Getenv("VERIF_C16_CASES"); v != "" {
 		nCases, _ = strconv.Atoi(v)
 	}
@@ -1091,7 +1189,14 @@ func TestVerifC16(t *testing.T) {
 		wg.Add(1)
 		go func() {
 			defer wg.Done()
-			var db DB
+			var db, db2 DB
+			fresh := func() (DB, DB) {
+				d, _ := NewTestDB(t)
+				if x {
+					return d, c16NewKV(t)
+				}
+				return d, nil
+			}
 			done := 0
 			for {
 				i := int(atomic.AddInt64(&next, 1))
@@ -1103,26 +1208,23 @@ func TestVerifC16(t *testing.T) {
 					// or SQLStore on sqlite (`-tags
 					// test_db_sqlite`), from the package's own
 					// test constructor.
-					db, _ = NewTestDB(t)
+					db, db2 = fresh()
 				}
 				done++
 				c := &c16{
-					t: t, w: bufio.NewWriter(&bufs[i]), db: db,
+					t: t, w: bufio.NewWriter(&bufs[i]), db: db, db2: db2,
 					ctx: context.Background(), n: i + 1,
 					rng: rand.New(rand.NewSource(seed*1000003 + int64(i))),
-					newDB: func() DB {
-						d, _ := NewTestDB(t)
-						return d
-					},
+					newDB: fresh,
 				}
-				if i%10 == 9 {
+				if i%10 == 9 && !x {
 					// every tenth case: concurrent tier
 					c.genConcCase()
 				} else {
 					c.genCase(c.rng.Intn(100) < 40)
 				}
 				c.w.Flush()
-				db = c.db
+				db, db2 = c.db, c.db2
 			}
 		}()
 	}
